@@ -171,7 +171,7 @@ func writeDesc(w io.Writer, desc string, indent int, withDesc bool) (err error) 
 			shift = "\n" + shift
 			if _, err = w.Write([]byte(`"""`)); err == nil {
 				if _, err = w.Write([]byte(shift)); err == nil {
-					if _, err = w.Write([]byte(strings.ReplaceAll(desc, "\n", shift))); err == nil {
+					if err = writeDescText(w, desc, shift); err == nil {
 						if _, err = w.Write([]byte(shift)); err == nil {
 							_, err = w.Write([]byte(`"""`))
 						}
@@ -180,14 +180,28 @@ func writeDesc(w io.Writer, desc string, indent int, withDesc bool) (err error) 
 			}
 		}
 	} else if _, err = w.Write([]byte(shift)); err == nil {
-		if _, err = w.Write([]byte{'"'}); err == nil {
-			if _, err = w.Write([]byte(desc)); err == nil {
-				_, err = w.Write([]byte{'"', '\n'})
-			}
+		if err = writeString(w, desc, true); err == nil {
+			_, err = w.Write([]byte{'\n'})
 		}
 	}
 	if err == nil {
 		_, err = w.Write([]byte(shift))
+	}
+	return
+}
+
+// writeDescText writes the lines of a multiline description, escaped so that
+// reading it back yields the same text. Line breaks are kept as line breaks.
+func writeDescText(w io.Writer, desc, shift string) (err error) {
+	for i, line := range strings.Split(desc, "\n") {
+		if 0 < i {
+			if _, err = w.Write([]byte(shift)); err != nil {
+				break
+			}
+		}
+		if err = writeString(w, line, false); err != nil {
+			break
+		}
 	}
 	return
 }
